@@ -685,37 +685,43 @@ func (db *DB) transact(ops []Op, commit bool) *Outcome {
 					cols = append(cols, c.Name)
 				}
 			}
-			have := map[string]bool{}
-			for _, u := range us {
-				have[projKey(u, work.T[op.Table][u], cols)] = true
+			// The selected rows and the given rows are compared as sets on the
+			// columns; a column a given row does not mention is not compared for
+			// that row (the library's own tests pin this reading).
+			for _, cn := range cols {
+				if cn != "_uuid" && colOf(t, cn) == nil {
+					return fail(op.Kind, "error", "unknown column "+cn)
+				}
 			}
-			want := map[string]bool{}
-			for _, r := range op.Rows {
-				full := Row{}
+			matches := func(u string, given Row) bool {
 				for _, cn := range cols {
-					c := colOf(t, cn)
-					if c == nil {
-						return fail(op.Kind, "error", "unknown column "+cn)
+					d, ok := given[cn]
+					if !ok {
+						continue
 					}
-					if d, ok := r[cn]; ok {
-						full[cn] = d
-					} else {
-						full[cn] = Default(c)
+					if !rowVal(u, work.T[op.Table][u], cn).Equal(d) {
+						return false
 					}
 				}
-				u := ""
-				if d, ok := r["_uuid"]; ok && d.Len() == 1 {
-					u = d.K[0].S
-				}
-				want[projKey(u, full, cols)] = true
+				return true
 			}
-			equal := len(have) == len(want)
-			if equal {
-				for k := range have {
-					if !want[k] {
-						equal = false
-						break
+			equal := true
+			matched := make([]bool, len(op.Rows))
+			for _, u := range us {
+				in := false
+				for i, given := range op.Rows {
+					if matches(u, given) {
+						in = true
+						matched[i] = true
 					}
+				}
+				if !in {
+					equal = false
+				}
+			}
+			for _, ok := range matched {
+				if !ok {
+					equal = false
 				}
 			}
 			if (op.Until == "==") == equal {
